@@ -27,6 +27,31 @@ func init() {
 			c.Set("ref", string(ref))
 			c.Tag("reference-with-gaps")
 		}
+		if r.Chance(1, 40) {
+			// a target whose `updown list` row is longer than 64 KiB (the default bufio.Scanner token): every site differs
+			w := r.Range(11000, 14000)
+			ref := randSeq(r, w, symACGT, false)
+			var qs, ts []string
+			for i := 0; i < 2; i++ {
+				qs = append(qs, mutateSeq(r, ref, symACGT, 1, 400, false))
+			}
+			nt := r.Range(3, 6)
+			for i := 0; i < nt; i++ {
+				if i == nt/2 {
+					b := []byte(ref)
+					for j := range b {
+						b[j] = r.Pick(strings.ReplaceAll(symACGT, string(b[j]), ""))
+					}
+					ts = append(ts, string(b))
+					continue
+				}
+				ts = append(ts, mutateSeq(r, ref, symACGT, 1, 400, false))
+			}
+			c.Set("ref", ref).Set("qnames", "Qa,Qb").Set("qseqs", strings.Join(qs, ","))
+			c.Set("tnames", strings.Join(randNames(r, nt, "T"), ",")).Set("tseqs", strings.Join(ts, ","))
+			c.Set("ignore", "").Set("via", "")
+			c.Tag("row-over-64k")
+		}
 		// several queries matter here
 		n := relOf(c, "fourway", "eq4")
 		return n
